@@ -25,7 +25,8 @@ META = {
         "operation sequences as such."
         ' Also: module-level / class-level containers are not mutated (GLOBALS), parse_tracts forwards as given, seed guard, commit guards incl. early returns, Config reader keeps explicit False.'
         ' Round 7: parse() is not skipped because of parse_complete; parse()/preprocess() write no setting and grow no result list in place; TractParser seeding cannot be missing.'
-        ' Round 8: parse() does not rewrite the Config object held in .config (alias, setattr).'),
+        ' Round 8: parse() does not rewrite the Config object held in .config (alias, setattr).'
+        ' Round 9: `if parent:` is not a truth test of an object whose class defines __len__ / __bool__.'),
     'families': ['GLOBALS', 'COMMIT', 'FRESH', 'TBL', 'FORWARD', 'DEADPARAM', 'SIB-DEFAULTS'],
 }
 
